@@ -12,13 +12,13 @@ RULE = ("case = history: a generated program (constant-heavy / general / hand-al
         "(thorough 30) API calls chosen by a Hypothesis RuleBasedStateMachine from {from_code again, to_code again, normalize "
         "again, to_json_data again, from_json_data again on the SAME dict object, from_json_data on a nested sub-document "
         "shared by two parents, mutate a returned JSON document at a generated path, mutate a document after loading it}, "
-        "each on the decoded or the normalized value; invariant after every step (evaluated in the worker): code object "
+        "decode a look-alike code object (equal under code.__eq__, other file name / stack size) and decode the original again}, each on the decoded or the normalized value; invariant after every step (evaluated in the worker): code object "
         "attributes unchanged (R-IDENT vs a marshal copy), JSON argument's canonical text unchanged, CodeData == untouched "
         "twin and same repr, n-th result == first result, nothing raises on the n-th call; evaluation = one step on one "
         "interpreter; non-trivial = history with >=1 repeated call on the same argument and a program that has a function "
         "with parameters or a tagged constant; distinct = sha1(program+steps)+interpreter")
 ASSUMPTIONS = ["sessions live in the worker; each machine run opens fresh sessions, so Hypothesis' replays during shrinking start clean"]
-REQUIRED_CLASSES = ["repeated_call", "mutations", "histories"]
+REQUIRED_CLASSES = ["repeated_call", "mutations", "histories", "lookalike_decodes"]
 
 PATHS = st.lists(st.integers(0, 40), min_size=0, max_size=7)
 ARG = st.fixed_dictionaries({"norm": st.booleans()})
@@ -73,6 +73,10 @@ class PureMachine(RuleBasedStateMachine):
     def from_json_then_mutate(self, norm, path, action):
         self.sess.step("from_json_then_mutate", {"norm": norm, "path": path, "action": action})
 
+    @rule(tag=st.integers(1, 3))
+    def decode_lookalike(self, tag):
+        self.sess.step("decode_lookalike", {"tag": tag})
+
     def teardown(self):
         if self.sess is not None:
             self.sess.close(_nontrivial)
@@ -90,6 +94,9 @@ def hypothesis_run(ctx):
 
 
 FIXED = [
+    "if c and p: break\n" if False else "for i in x:\n if c and p: break\n",
+    "def f():\n try:\n  return 2\n finally:\n  return 3\n",
+    "def f():\n return\n return\n",
     "def f(a, b=1, *c, d, **e):\n 'doc'\n return a\n",
     "x = (1, b'x', 2.5, ..., 1e999)\ndef g(p): return lambda q: p\n",
     "class A:\n def m(self, x): return [i for i in x]\n",
@@ -100,7 +107,8 @@ SCRIPT = [["from_json_again", {"norm": False}], ["from_json_again", {"norm": Fal
           ["mutate_returned_json", {"norm": False, "path": [0, 0, 0], "action": 0}], ["to_json_again", {"norm": False}],
           ["to_code_again", {"norm": False}], ["to_code_again", {"norm": False}], ["normalize_again", {"norm": False}],
           ["normalize_again", {"norm": False}], ["from_code_again", {}], ["from_code_again", {}],
-          ["from_json_then_mutate", {"norm": False, "path": [3, 1], "action": 2}]]
+          ["from_json_then_mutate", {"norm": False, "path": [3, 1], "action": 2}], ["decode_lookalike", {"tag": 1}],
+          ["from_code_again", {}], ["decode_lookalike", {"tag": 2}]]
 
 
 def fixed_cases(tier):
